@@ -40,6 +40,11 @@ ASSUMPTIONS = [
 RESOURCES = c01.RESOURCES
 
 
+DYNAMIC_VALIDATION_MECH = ("consumer of the output of a step that an executed step declares is executed "
+                           "again although that producer is skipped (its hash is discarded when the "
+                           "producer is detached for a moment)")
+
+
 def gen_cases(tier, seed):
     n = 40 if tier == "quick" else 800
     return [{"id": f"c04-{seed}-{i}", "seed": seed * 3571 + i} for i in range(n)]
@@ -196,6 +201,25 @@ def run_case(case):
                 if ca.get(s) in execset or cb.get(s) in execset:
                     continue
                 bad.append(s)
+            # known mechanism: the step consumes the output of a step that an executed step
+            # declared; that producer is detached while its declaring step runs again, the
+            # consumer's dynamic inputs are validated against a digest that no longer covers the
+            # same set of inputs, its hash is discarded and it is executed, although the producer
+            # is then skipped and nothing the consumer reads has changed
+            known_bad = []
+            for s in list(bad):
+                inputs = ia.get(s, set()) | ib.get(s, set())
+                prods = set()
+                for f in inputs:
+                    prods |= pa.get(f, set()) | pb.get(f, set())
+                if any((ca.get(p) in execset or cb.get(p) in execset) for p in prods):
+                    bad.remove(s)
+                    known_bad.append(s)
+            if known_bad:
+                vio(DYNAMIC_VALIDATION_MECH,
+                    f"{label}: edited={sorted(edited)} executed={[s[:70] for s in executed]} "
+                    f"consumers of a skipped, re-declared producer={[s[:120] for s in known_bad]}",
+                    {**witness, "edited": sorted(edited)})
             if bad:
                 vio("executed step outside the cone of the edited sources",
                     f"{label}: edited={sorted(edited)} executed={[s[:70] for s in executed]} "
